@@ -497,6 +497,16 @@ func (e *Enc) valsEqual(x, y *Val, t types.Type) string {
 	case *types.Slice:
 		// only comparison with nil is legal
 		return eq(x.L[0].T, y.L[0].T)
+	case *types.Interface:
+		// comparison with the nil interface looks at the type tag only (a nil interface has no payload)
+		if len(x.L) == 2 {
+			if y.L[0].T == "0" && y.L[1].T == "0" {
+				return eq(x.L[0].T, "0")
+			}
+			if x.L[0].T == "0" && x.L[1].T == "0" {
+				return eq(y.L[0].T, "0")
+			}
+		}
 	}
 	var cs []string
 	for i := range x.L {
